@@ -44,7 +44,7 @@ func compileDump(src, mode string) (out string) {
 	}()
 	code, err := py.Compile(src, "<c18>", py.CompileMode(mode), 0, true)
 	if err != nil {
-		return "ERR:" + errClass(err)
+		return "ERR:" + errClass(err) + ":" + strings.ReplaceAll(fmt.Sprint(err), "\n", " | ")
 	}
 	var b strings.Builder
 	dumpCode(code, &b)
